@@ -234,3 +234,7 @@ func c15Script(L, K, pattern int, inject, frag bool, nchunk int) {
 // C10: the WebTransport read limit, any 64-bit declared length against any limit: the
 // same reader oracle as C15 (limit enforced before delivery, ErrReadLimit, session close).
 func VerifH_C10_wt_frame_limit() { c15Script(10, 2, 0b00, false, false, 1) }
+
+// C09: the reader never panics on arbitrary bytes (free choice of calls): same oracle as C15.
+func VerifH_C09_wt_reader_bytes()  { c15Script(4, 2, -1, false, false, 2) }
+func VerifHT_C09_wt_reader_bytes6() { c15Script(6, 3, -1, false, false, 2) }
